@@ -101,6 +101,63 @@ pub struct Cpu {
     pub unknown_fault: u64,
     /// set once by init(): from then on every privileged instruction that faults is emulated and logged, whatever the mode
     pub armed: bool,
+    /// when on, INVLPGB requests are checked as they are executed instead of being stored (ranges that need > MAX_EV requests)
+    pub inv_stream: InvStream,
+}
+
+/// streaming oracle for broadcast range flushes (same rules as c11::invlpgb_case, applied request by request)
+#[derive(Clone, Copy)]
+pub struct InvStream {
+    pub on: bool,
+    pub size: u64,
+    pub count_max: u32,
+    pub exp_low: u64,
+    pub exp_edx: u32,
+    pub cur: u128,  // position (in the contiguous 2^48 space) up to which the range is covered
+    pub n: u64,     // requests seen
+    pub bad_bits: u64,
+    pub bad_count: u64,
+    pub bad_addr: u64,
+    pub bad_gap: u64,
+    pub first_bad: (u64, u32, u32),
+}
+impl InvStream {
+    pub const OFF: InvStream = InvStream { on: false, size: 0x1000, count_max: 0, exp_low: 1, exp_edx: 0, cur: 0, n: 0, bad_bits: 0, bad_count: 0, bad_addr: 0, bad_gap: 0, first_bad: (0, 0, 0) };
+    fn feed(&mut self, rax: u64, ecx: u32, edx: u32) {
+        self.n += 1;
+        let mut bad = false;
+        if rax & 0xfff != self.exp_low || edx != self.exp_edx || (ecx >> 31 == 1) != (self.size == 0x20_0000) || ecx & 0x7fff_0000 != 0 {
+            self.bad_bits += 1;
+            bad = true;
+        }
+        let count = ecx & 0xffff;
+        if count > self.count_max {
+            self.bad_count += 1;
+            bad = true;
+        }
+        let va = rax & !0xfff;
+        let canon = (((va << 16) as i64) >> 16) as u64 == va;
+        if !canon || va % self.size != 0 {
+            self.bad_addr += 1;
+            bad = true;
+        } else {
+            let n = count.max(1) as u128;
+            if va < (1 << 47) && va as u128 + n * self.size as u128 > (1u128 << 47) {
+                self.bad_gap += 1;
+                bad = true;
+            }
+            let p = (va & 0xffff_ffff_ffff) as u128;
+            if p <= self.cur && p + n * self.size as u128 > self.cur {
+                self.cur = p + n * self.size as u128;
+            }
+        }
+        if bad && self.first_bad == (0, 0, 0) {
+            self.first_bad = (rax, ecx, edx);
+        }
+        if self.n > 20_000_000 {
+            unsafe { runaway() };
+        }
+    }
 }
 
 const ARITH: u64 = 0x8d5 | 0x400; // CF PF AF ZF SF OF + DF live in the real RFLAGS
@@ -133,6 +190,7 @@ pub static mut CPU: Cpu = Cpu {
     iret_cont: 0,
     iret_rsp: 0,
     unknown_fault: 0,
+    inv_stream: InvStream::OFF,
     armed: false,
 };
 
@@ -210,6 +268,12 @@ impl Cpu {
         self.ncpuid += 1;
     }
     fn log(&mut self, ev: Ev, rip: u64, len: usize) {
+        if self.inv_stream.on {
+            if let Ev::Invlpgb(rax, ecx, edx) = ev {
+                self.inv_stream.feed(rax, ecx, edx);
+                return;
+            }
+        }
         if self.nev < MAX_EV {
             self.events[self.nev] = Event { ev, rip, len: len as u8 };
             self.nev += 1;
